@@ -3410,6 +3410,8 @@ static Node *primary(Token **rest, Token *tok) {
 
   if (equal(tok, "(") && equal(tok->next, "{")) {
     // This is a GNU statement expresssion.
+    if (!current_fn)
+      error_tok(tok, "statement expression is not allowed outside a function");
     Node *node = new_node(ND_STMT_EXPR, tok);
     node->body = compound_stmt(&tok, tok->next->next)->body;
     *rest = skip(tok, ")");
